@@ -310,6 +310,27 @@ def rule_close_code_reason(ctx):
     scf = wsp.methods.get("sendCloseFrame")
     ctx.require(scf is not None, "sendCloseFrame not found")
     callers = cg.callers(scf)
+    # f(x=1, **kw) with kw a local that is only ever bound to dict displays with literal keys (one per branch) and never modified: the call stands for one
+    # call per display -- judged as if each were written out
+    expanded = []
+    for (caller, call, x_) in callers:
+        stars = [k for k in call.keywords if k.arg is None]
+        if len(stars) == 1 and isinstance(stars[0].value, ast.Name):
+            nm = stars[0].value.id
+            binds = [st.value for st in walk_no_defs(caller.node) if isinstance(st, ast.Assign) and any(isinstance(t, ast.Name) and t.id == nm for t in st.targets)]
+            touched = [y for y in walk_no_defs(caller.node) if (isinstance(y, ast.Subscript) and isinstance(y.ctx, (ast.Store, ast.Del)) and norm.text(y.value) == nm) or
+                       (isinstance(y, ast.Call) and isinstance(y.func, ast.Attribute) and norm.text(y.func.value) == nm) or
+                       (isinstance(y, ast.AugAssign) and norm.text(y.target) == nm)]
+            if binds and not touched and all(isinstance(b, ast.Dict) and all(isinstance(k_, ast.Constant) and isinstance(k_.value, str) for k_ in b.keys) for b in binds):
+                import copy
+                for b in binds:
+                    vc = copy.copy(call)
+                    vc.keywords = [k for k in call.keywords if k.arg is not None] + [ast.keyword(arg=k_.value, value=v_) for k_, v_ in zip(b.keys, b.values)]
+                    ast.copy_location(vc, b)
+                    expanded.append((caller, vc, x_))
+                continue
+        expanded.append((caller, call, x_))
+    callers = expanded
     ctx.require(len(callers) >= 4, f"only {len(callers)} call sites of sendCloseFrame found (expected >= 4)")
     n_code = 0
     for (caller, call, _) in callers:
